@@ -752,6 +752,9 @@ class Layer(BaseObject):
             # whatever the glyph brings with it.
             glyph.name = name
             self._insertGlyph(glyph)
+            # announce the glyph like newGlyph does: components waiting for
+            # their base glyph and the font's glyph order listen to this
+            self.postNotification("Layer.GlyphAdded", data=dict(name=name))
 
         def set_glyphs(key, glyphs):
             for name in glyphs:
